@@ -209,6 +209,7 @@ size_t varintPFORReadMeta(const uint8_t *src, varintPFORMeta *meta) {
 
     /* threshold is not stored, set to default */
     meta->threshold = VARINT_PFOR_THRESHOLD_95;
+    meta->thresholdValue = 0; /* not stored in the encoding */
 
     return (size_t)(src - start);
 }
